@@ -3,7 +3,10 @@
 (a) statex BFS over operation sequences of 2 (quick) / 3 (thorough) owners on
     the real VipMgr (/30 and /29), RuleMgr, EndpointsMgr and
     NetworkResourceService, on run-private temp directories, against a dict
-    reference `entry -> owner` (mc/c14_seq.py);
+    reference `entry -> owner` (mc/c14_seq.py); the network service also
+    with every external call (netdev / iptables) of on_create_request /
+    on_delete_request failing, followed by retry / delete / restart
+    (mc/c14_flt.py);
 (b) mc.ilv: all interleavings (system-call granularity) of two processes
     using the same RuleMgr / EndpointsMgr directory (mc/c14_ilv.py).
 """
@@ -53,14 +56,14 @@ def seq_configs(quick):
         ('netsvc/30', seq.netsvc_cfg('192.168.0.0/30', n), d, 1),
         ('netsvc/29', seq.netsvc_cfg('192.168.0.0/29', n), d, 1),
         # every external call of on_create_request / on_delete_request may
-        # fail once (max_dev faults per history), then retry / delete /
-        # restart
+        # fail, at most `max_dev` failures per history, followed by retry /
+        # delete / restart; the bounded spaces saturate before depth 7
         ('netsvc+faults/30',
-         flt.netsvc_fault_cfg('192.168.0.0/30', n, 1 if quick else 2),
-         5 if quick else 6, 1),
+         flt.netsvc_fault_cfg('192.168.0.0/30', n, 2), 7 if quick else 8,
+         2 if quick else 4),
         ('netsvc+faults/29',
-         flt.netsvc_fault_cfg('192.168.0.0/29', n, 1 if quick else 2),
-         5 if quick else 6, 1),
+         flt.netsvc_fault_cfg('192.168.0.0/29', n, 2 if quick else 1),
+         7 if quick else 8, 2),
     ]
 
 
@@ -217,7 +220,7 @@ def _run(ctx, t0):
            'exhaustive': True}
     violations = []
     cfgs = seq_configs(ctx.quick)
-    seq_budget = ctx.budget_s * (0.45 if ctx.quick else 0.35)
+    seq_budget = ctx.budget_s * 0.45
     shares = sum(c[3] for c in cfgs)
     nontrivial = 0
     for name, cfg, depth, share in cfgs:
@@ -375,6 +378,22 @@ ASSUMPTIONS = [
     'resp. /29 through a subclass attribute; a restart is initialize + '
     'on_create_request for every surviving request + synchronize, the order '
     'of ResourceService._run',
+    'NetworkResourceService under faults (netsvc+faults configs): a fault is '
+    'one call through the netdev / iptables seam raising (CalledProcessError, '
+    'EIO for sysfs reads) WITHOUT having had its effect; the fault points '
+    'are the (function, occurrence) pairs recorded from the real create / '
+    'repeated create / delete paths at start-up; at most faults_per_history '
+    'faults per history, none inside a restart; the exception becomes an '
+    '_error reply and the service lives on (ResourceService._on_created / '
+    '_on_deleted). A FAILED operation may leave the table unchanged, keep '
+    'the one address it linked for a request that had none (provisional: '
+    'never told to the requestor) and drop provisional addresses of its '
+    'request; a restart may drop provisional addresses; a request left in '
+    'its error state may be refused until it is deleted (not a C14 matter); '
+    'completed operations are judged as without faults. A request whose '
+    'delete failed is not re-submitted or deleted again before the restart '
+    'that collects it (unique names are not reused, one removal '
+    'notification per request)',
     'VipMgr.initialize / RuleMgr.initialize / EndpointsMgr.initialize are '
     'documented resets and modelled as such; VipMgr.initialize may remove '
     'only addresses of its own network (two pools with disjoint /30 networks '
